@@ -812,3 +812,352 @@ def C03(ctx):
                 if v != inv:
                     fail('C03', 'get_state_by_id of %s returns %s, documented numbering gives %s' % (nm, v, inv), ctx, i)
     return dict(nontrivial=nontrivial, classes=classes)
+
+
+# ---------------------------------------------------------------------------------------------- C04
+_sub_re = re.compile(r'^!sub([frqQ]):(\d+)#(\d+)$')
+_pay_re = re.compile(r'#(\d+)$')
+
+
+def payload_of(p):
+    """payload id from a parsed token's event description ('E0#17' -> 17), None for none/?"""
+    m = _pay_re.search(p[3])
+    return int(m.group(1)) if m else None
+
+
+def behaviour_fsm(ctx, p):
+    """machine passed as `fsm` to the behaviour that produced parsed token p"""
+    st = ctx.static
+    root = ctx.spec['root']['name']
+    if p[0] in ('g', 'a'):
+        o = tok_owner(ctx, p)
+        return o[0] if o else root
+    if p[0] in ('en', 'ex'):
+        if p[1] in st.state_owner:
+            return st.state_owner[p[1]][0]
+        return root
+    if p[0] == 'xc':
+        return p[1]
+    return root
+
+
+def subtree(ctx, mach):
+    st = ctx.static
+    out = {mach}
+    changed = True
+    while changed:
+        changed = False
+        for m, par in st.parent.items():
+            if par in out and m not in out:
+                out.add(m)
+                changed = True
+    return out
+
+
+def C04(ctx):
+    """Run-to-completion: a submission from a behaviour returns at once (nothing is dispatched inside the submitting
+    call); stored occurrences are dispatched exactly once, in submission order per receiving machine, only to behaviours
+    of the machine they were sent to; execute-all drains in order and execute-single dispatches exactly the oldest.
+    Model-free invariants over the whole history; plus per-occurrence agreement with the model while the dispatch order
+    agrees."""
+    st = ctx.static
+    root = ctx.spec['root']['name']
+    classes = Counter()
+    nontrivial = []
+    target = {}          # payload -> machine it was sent to
+    stored = {}          # machine -> list of payloads stored (submission order), not yet dispatched
+    immediate = set()
+    dispatched = []      # payloads in order of first dispatch token
+    seen = set()
+    cur_by_target = {}
+    maybe_silent = set()
+    in_root_entry = set()
+    for i, c in enumerate(ctx.case):
+        if i >= len(ctx.sut):
+            break
+        toks = ctx.sut[i]
+        if any(t.startswith('ESCAPED') for t in toks):
+            fail('C04', 'an exception escaped the library', ctx, i)
+        opk = c['op']
+        if opk == 'P':
+            target[c['payload']] = root
+            immediate.add(c['payload'])
+        elif opk == 'Q':
+            target[c['payload']] = root
+            stored.setdefault(root, []).append(c['payload'])
+        pend_before = list(stored.get(root, []))
+        last_cb = None
+        nsub = 0
+        nested_or_entry = False
+        dispatched_in_op = []
+        k = 0
+        while k < len(toks):
+            t = toks[k]
+            m = _sub_re.match(t)
+            if m:
+                how, evi, pl = m.group(1), int(m.group(2)), int(m.group(3))
+                # A: the submitting call returns at once
+                if k + 1 >= len(toks) or toks[k + 1] != '!ret':
+                    sig = None
+                    if last_cb and last_cb[0] == 'ex' and how == 'f' and last_cb[1] in st.state_owner:
+                        # RC8 shape: exit behaviour of a substate of M submits to M while a transition of an enclosing
+                        # machine (which later exits M itself) is running the exit cascade
+                        mach = st.state_owner[last_cb[1]][0]
+                        if mach != root and any(x.startswith('ex:%s/' % mach) for x in toks[k:]):
+                            sig = 'submission_from_exit_behaviour_dispatched_inside_cascade'
+                    fail('C04', 'event submitted from behaviour %s was dispatched inside the submitting call (interrupts the running step)'
+                         % (toks[k - 1] if k else '?'), ctx, i, sig=sig)
+                tgt = root if how in ('r', 'Q') else (behaviour_fsm(ctx, last_cb) if last_cb else root)
+                target[pl] = tgt
+                stored.setdefault(tgt, []).append(pl)
+                if how == 'q' and tgt != root:
+                    # enqueue_event on a contained machine: an unmatched occurrence is dispatched without any observable
+                    # behaviour (no no_transition for contained machines), so its dispatch may be invisible
+                    maybe_silent.add(pl)
+                if opk == 'S' and last_cb and last_cb[0] == 'en' and last_cb[1] == root:
+                    in_root_entry.add(pl)
+                nsub += 1
+                if tgt != root or (last_cb and last_cb[0] == 'en'):
+                    nested_or_entry = True
+                k += 2
+                continue
+            p = parse(t)
+            if p and p[0] in ('g', 'a', 'en', 'ex', 'nt', 'xc'):
+                last_cb = p
+                pl = payload_of(p)
+                if pl is not None:
+                    if pl not in target:
+                        fail('C04', 'behaviour saw an occurrence #%d that was never submitted' % pl, ctx, i)
+                    tg = target[pl]
+                    own = p[1] if p[0] in ('nt', 'xc') else (tok_owner(ctx, p) or (root, None))[0]
+                    if own not in subtree(ctx, tg):
+                        fail('C04', 'occurrence #%d sent to %s was seen by a behaviour of %s (%s)' % (pl, tg, own, t), ctx, i)
+                    # contiguity is judged per receiving machine: an occurrence sent to a submachine may legitimately be
+                    # dispatched by that submachine between two regions of the enclosing machine's step
+                    cur_block = cur_by_target.get(tg)
+                    if pl != cur_block:
+                        if pl in seen:
+                            fail('C04', 'occurrence #%d (sent to %s) is dispatched in two separate blocks, interleaved with #%s sent to the same machine'
+                                 % (pl, tg, cur_block), ctx, i)
+                        seen.add(pl)
+                        cur_by_target[tg] = pl
+                        dispatched.append(pl)
+                        dispatched_in_op.append(pl)
+                        if pl in immediate:
+                            pass
+                        else:
+                            q = stored.get(tg, [])
+                            while q and q[0] != pl and q[0] in maybe_silent:
+                                q.pop(0)
+                                classes['possibly_silent_dispatch'] += 1
+                            if not q or q[0] != pl:
+                                if pl in q:
+                                    fail('C04', 'occurrence #%d sent to %s dispatched before older pending occurrences %s (not FIFO)'
+                                         % (pl, tg, q[:q.index(pl)]), ctx, i)
+                                fail('C04', 'occurrence #%d dispatched although it is not pending' % pl, ctx, i)
+                            q.pop(0)
+            k += 1
+        # a direct call on a quiescent machine is dispatched in that call
+        if opk == 'P' and c['payload'] not in seen:
+            fail('C04', 'process_event(#%d) on a quiescent machine produced no dispatch at all' % c['payload'], ctx, i)
+        if opk == 'X':
+            got = [pl for pl in dispatched_in_op if target.get(pl) == root and pl in pend_before]
+            if c['mode'] == 's':
+                if pend_before and 'skip' not in toks:
+                    first = [pl for pl in dispatched_in_op if target.get(pl) == root]
+                    if not first or first[0] != pend_before[0] or len([x for x in first if x in pend_before]) != 1:
+                        fail('C04', 'single-step execution dispatched %s, expected exactly the oldest pending occurrence #%d' % (first, pend_before[0]), ctx, i)
+            else:
+                if got != pend_before:
+                    fail('C04', 'execute_queued_events dispatched %s, pending were %s' % (got, pend_before), ctx, i)
+                if stored.get(root):
+                    fail('C04', 'execute_queued_events returned with occurrences %s still pending' % stored[root], ctx, i)
+        if opk in ('P', 'S') and stored.get(root):
+            # after a direct call returns the machine has drained everything submitted meanwhile
+            if opk == 'P' or dialect_of(ctx.cfg) == 'mp11' or True:
+                left = [pl for pl in stored[root] if pl not in pend_before or opk == 'P']
+                if opk == 'P' and left:
+                    sig = 'submission_in_root_entry_during_start_dropped' if (dialect_of(ctx.cfg) == 'mp11' and all(x in in_root_entry for x in left)) else None
+                    fail('C04', 'process_event returned although occurrences %s submitted earlier were never dispatched (lost)' % left, ctx, i, sig=sig)
+        for t in toks:
+            if t.startswith('pend='):
+                n = int(t[5:])
+                exp = len(stored.get(root, []))
+                if (dialect_of(ctx.cfg) == 'back' and n != exp) or n < exp:
+                    fail('C04', 'pending count reported %d, %d occurrences are stored' % (n, exp), ctx, i)
+        if nsub >= 2 and nested_or_entry:
+            nontrivial.append((ctx.spec['id'], ids_before(ctx, i), tuple(t.split('#')[0] for t in toks if t.startswith('!sub')), tuple(dispatched_in_op and [len(dispatched_in_op)])))
+            classes['multi_submission_step'] += 1
+        if nsub:
+            classes['steps_with_submission'] += 1
+        classes['steps'] += 1
+    # end of history: everything submitted was dispatched once or is still pending
+    for pl, tg in target.items():
+        if pl not in seen and pl not in stored.get(tg, []) and pl not in maybe_silent:
+            fail('C04', 'occurrence #%d sent to %s was neither dispatched nor is it pending (lost)' % (pl, tg), ctx, len(ctx.sut) - 1)
+    # per-occurrence agreement with the model while the dispatch order agrees
+    try:
+        mtoks = ctx.model
+        mdisp = []
+        blocks_m, blocks_s = {}, {}
+        for src, store, disp in ((mtoks, blocks_m, mdisp), (ctx.sut, blocks_s, None)):
+            for op in src:
+                for t in op:
+                    p = parse(t)
+                    if p and p[0] in ('g', 'a', 'en', 'ex', 'nt', 'xc'):
+                        pl = payload_of(p)
+                        if pl is not None:
+                            if pl not in store and disp is not None:
+                                disp.append(pl)
+                            store.setdefault(pl, []).append(t)
+        if mdisp == dispatched:
+            classes['dispatch_order_equals_model'] += 1
+            for pl in dispatched:
+                if blocks_m.get(pl) != blocks_s.get(pl):
+                    fail('C04', 'behaviours run for occurrence #%d differ from the model (dispatched twice, partially, or in another configuration)' % pl,
+                         ctx, None, sut_block=blocks_s.get(pl), model_block=blocks_m.get(pl))
+        else:
+            classes['dispatch_order_differs_from_model'] += 1
+    except Violation:
+        raise
+    except Exception as e:
+        classes['model_error'] += 1
+    return dict(nontrivial=nontrivial, classes=classes)
+
+
+# ---------------------------------------------------------------------------------------------- C05
+def deferring_states(ctx):
+    """state name -> set of event type names it defers (static)"""
+    st = ctx.static
+    if hasattr(st, '_defer'):
+        return st._defer
+    d = {}
+    for s, (nm, ri) in st.state_owner.items():
+        sd = st.machine[nm]['states'][s]
+        lst = sd.get('deferred') or []
+        if sd['kind'] == 'sub':
+            lst = sd['machine'].get('as_state', {}).get('deferred') or []
+        if lst:
+            d[s] = set(lst)
+    st._defer = d
+    return d
+
+
+def C05(ctx):
+    """Deferred events: retained at the moment of deferral (no no_transition, no behaviour sees them), never dispatched
+    while an entered state defers their type, re-offered so that no deferred occurrence is pending at a quiescent point
+    unless an entered state defers its type, same-type occurrences in arrival order, each dispatched exactly once.
+    Model-free invariants over the whole history.  An occurrence counts as *deferred* from the moment it is known to have
+    been offered: a direct process_event arriving in a deferring configuration, or anything still pending after an
+    operation that offers every stored occurrence (a dispatched direct call, execute_queued_events)."""
+    st = ctx.static
+    dfr = deferring_states(ctx)
+    evname = [e['name'] for e in ctx.spec['events']]
+    classes = Counter()
+    nontrivial = []
+    etype = {}           # payload -> event type name
+    pending = []         # payloads submitted and not yet dispatched
+    stamp = {}           # payload -> operation index at which it is known to have been deferred (arrival order)
+    done = set()
+    active = set()       # ledger of entered states
+    last_by_type = {}    # type -> (stamp, payload) of the last re-offered occurrence
+    exact = set()        # occurrences whose moment of deferral is known exactly
+    waited = {}
+
+    def deferred_by_active(tname):
+        return any(tname in dfr.get(s, ()) for s in active)
+
+    for i, c in enumerate(ctx.case):
+        if i >= len(ctx.sut):
+            break
+        toks = ctx.sut[i]
+        opk = c['op']
+        if any(t.startswith('ESCAPED') for t in toks):
+            fail('C05', 'an exception escaped the library', ctx, i)
+        own = None
+        if opk == 'P':
+            etype[c['payload']] = evname[c['ev']]
+            pending.append(c['payload'])
+            own = c['payload']
+            if deferred_by_active(evname[c['ev']]):
+                stamp[own] = i
+                exact.add(own)
+                classes['deferred_on_arrival'] += 1
+        elif opk == 'Q':
+            etype[c['payload']] = evname[c['ev']]
+            pending.append(c['payload'])
+        cur = None
+        own_dispatched = False
+        for k, t in enumerate(toks):
+            m = _sub_re.match(t)
+            if m:
+                pl = int(m.group(3))
+                etype[pl] = evname[int(m.group(2))]
+                pending.append(pl)
+                continue
+            p = parse(t)
+            if not p:
+                continue
+            if p[0] in ('g', 'a', 'en', 'ex', 'nt', 'xc'):
+                pl = payload_of(p)
+                if pl is not None and pl != cur:
+                    cur = pl
+                    if pl in done:
+                        fail('C05', 'occurrence #%d (%s) is dispatched a second time' % (pl, etype.get(pl)), ctx, i)
+                    if pl not in etype:
+                        fail('C05', 'behaviour saw an occurrence #%d that was never submitted' % pl, ctx, i)
+                    tn = etype[pl]
+                    if deferred_by_active(tn):
+                        what = 'reported through no_transition' if p[0] == 'nt' else 'dispatched (%s)' % t
+                        fail('C05', 'occurrence #%d of deferred type %s was %s while the entered states %s defer it'
+                             % (pl, tn, what, sorted(s for s in active if tn in dfr.get(s, ()))), ctx, i)
+                    if pl == own:
+                        own_dispatched = True
+                    if pl in stamp:
+                        prev = last_by_type.get(tn)
+                        # arrival order is only known exactly for occurrences deferred on arrival (direct calls)
+                        if pl in exact and prev is not None and prev[1] in exact and prev[0] > stamp[pl]:
+                            fail('C05', 'deferred occurrences of type %s re-offered out of arrival order (#%d, deferred in op %d, after #%d, deferred in op %d)'
+                                 % (tn, pl, stamp[pl], prev[1], prev[0]), ctx, i)
+                        last_by_type[tn] = (stamp[pl], pl)
+                        classes['reoffered'] += 1
+                        if waited.get(pl, 0) >= 1:
+                            multi = len({etype[x] for x in pending if x in stamp}) >= 2
+                            nontrivial.append((ctx.spec['id'], tn, tuple(sorted(active)), min(waited.get(pl, 0), 6), tuple(sorted(etype[x] for x in pending if x in stamp))[:6], opk))
+                            classes['reoffered_after_other_events'] += 1
+                            if multi:
+                                classes['two_deferred_types_pending'] += 1
+                    done.add(pl)
+                    if pl in pending:
+                        pending.remove(pl)
+            if p[0] == 'en':
+                active.add(p[1])
+            elif p[0] == 'ex':
+                active.discard(p[1])
+        if opk == 'T':
+            active.clear()
+        offers_all = (opk == 'P' and own_dispatched) or (opk == 'X' and c.get('mode') == 'a') or opk == 'S'
+        if 'skip' in toks:
+            offers_all = False
+        for pl in list(pending):
+            tn = etype[pl]
+            if pl in stamp or offers_all:
+                if not deferred_by_active(tn) and opk in ('P', 'X', 'S'):
+                    sig = None
+                    if opk == 'X' and c.get('mode') == 's' and dialect_of(ctx.cfg) == 'mp11' and pl in stamp:
+                        sig = 'deferred_not_reoffered_after_single_step'
+                    fail('C05', 'occurrence #%d (%s) is still pending at a quiescent point although no entered state defers %s (entered: %s)'
+                         % (pl, tn, tn, sorted(active)), ctx, i, sig=sig)
+                if pl not in stamp:
+                    stamp[pl] = i
+            if pl in stamp and pl != own:
+                waited[pl] = waited.get(pl, 0) + 1
+        if own is not None and own in stamp and own in pending:
+            waited.setdefault(own, 0)
+        for t in toks:
+            if t.startswith('pend='):
+                n = int(t[5:])
+                if n < len(pending) or (dialect_of(ctx.cfg) == 'back' and n != len(pending)):
+                    fail('C05', 'pending count %d but %d occurrences are retained (%s)' % (n, len(pending), pending), ctx, i)
+        classes['steps'] += 1
+    return dict(nontrivial=nontrivial, classes=classes)
